@@ -446,8 +446,8 @@ def _check_abbr(ctx, plen):
     step(g.entry, layout0, (), {g.entry.id})
     full = [r for r in results if r[0] is not None and ('size', '==', 'n:%d' % (plen + 9)) in r[1]]
     if len(full) < 3:
-        ctx.bad('C15-abbr', 'abbreviation layouts', f, 'could not follow the erase() edits (%d full-name paths)' % len(full),
-                construct='abbr-paths')
+        ctx.unknown('C15-abbr', 'abbreviation layouts', f, 'could not follow the edits of the abbreviation string (%d full-name paths): '
+                    'only erase(pos, n) with constant arguments is interpreted' % len(full), construct='abbr-paths')
         return
     seen = {}
     for (lay, conds) in full:
